@@ -754,6 +754,105 @@ pub mod d11 {
         nodes[right] = Some(BuildNode::new(left, jump));
     }
 }
+pub mod a13 {
+    use garnish_lang_traits::{GarnishData, TypeConstants};
+    fn copy_item<D: GarnishData>(to: &mut D, item: D::Size, nested: bool) -> Result<D::Size, D::Error> {
+        if nested {
+            let inner = to.start_list(D::Size::one())?;
+            let inner = to.add_to_list(inner, item)?;
+            to.end_list(inner)
+        } else {
+            Ok(item)
+        }
+    }
+    /// opens the list, then builds the items - one of which may open a list itself
+    pub fn ctl_builds_items_inside<D: GarnishData>(to: &mut D, items: Vec<D::Size>, len: D::Size) -> Result<D::Size, D::Error> {
+        let mut list = to.start_list(len)?;
+        for i in items {
+            let item = copy_item(to, i, true)?;
+            list = to.add_to_list(list, item)?;
+        }
+        to.end_list(list)
+    }
+    pub fn ok_builds_items_first<D: GarnishData>(to: &mut D, items: Vec<D::Size>, len: D::Size) -> Result<D::Size, D::Error> {
+        let mut built = vec![];
+        for i in items {
+            built.push(copy_item(to, i, true)?);
+        }
+        let mut list = to.start_list(len)?;
+        for item in built {
+            list = to.add_to_list(list, item)?;
+        }
+        to.end_list(list)
+    }
+}
+pub mod w9 {
+    use std::collections::HashMap;
+    pub struct Store {
+        pub data: Vec<Vec<u8>>,
+        pub cache: HashMap<u64, usize>,
+        pub pending: Option<Vec<u8>>,
+    }
+    impl Store {
+        fn cache_add(&mut self, v: Vec<u8>) -> Result<usize, String> {
+            let h = v.len() as u64;
+            match self.cache.get(&h) {
+                Some(a) => Ok(*a),
+                None => {
+                    let addr = self.data.len();
+                    self.data.push(v);
+                    self.cache.insert(h, addr);
+                    Ok(addr)
+                }
+            }
+        }
+        fn add_plain(&mut self, v: Vec<u8>) -> Result<usize, String> {
+            self.data.push(v);
+            Ok(self.data.len() - 1)
+        }
+        pub fn ok_end_interns(&mut self) -> Result<usize, String> {
+            match self.pending.take() {
+                None => Err("no list".to_string()),
+                Some(v) => self.cache_add(v),
+            }
+        }
+        pub fn ctl_end_appends(&mut self) -> Result<usize, String> {
+            match self.pending.take() {
+                None => Err("no list".to_string()),
+                Some(v) => self.add_plain(v),
+            }
+        }
+    }
+}
+pub mod d12 {
+    pub struct Sink {
+        pub names: Vec<String>,
+    }
+    impl Sink {
+        pub fn parse_add_symbol(&mut self, from: &str) -> Result<usize, String> {
+            self.names.push(from.to_string());
+            Ok(self.names.len() - 1)
+        }
+    }
+    pub struct Node {
+        pub text: String,
+    }
+    impl Node {
+        pub fn text(&self) -> &str {
+            &self.text
+        }
+    }
+    pub fn ok_trims_delimiters(data: &mut Sink, node: &Node) -> Result<usize, String> {
+        data.parse_add_symbol(node.text().trim_matches('`'))
+    }
+    pub fn ok_slices_marker(data: &mut Sink, node: &Node) -> Result<usize, String> {
+        data.parse_add_symbol(&node.text()[1..])
+    }
+    pub fn ctl_filters_characters(data: &mut Sink, node: &Node) -> Result<usize, String> {
+        let name: String = node.text().chars().filter(|c| c.is_alphanumeric() || *c == '_').collect();
+        data.parse_add_symbol(&name)
+    }
+}
 pub mod g4c {
     use garnish_lang_traits::{GarnishData, TypeConstants};
     pub fn ctl_no_lower_bound<D: GarnishData>(this: &D, list: D::Size, index: D::Number) -> Result<Option<D::Size>, D::Error> {
